@@ -62,7 +62,7 @@ def charDigit? (c : Char) : Option Nat :=
 
 /-- Decimal digits, most significant first (`[0]` for zero). -/
 def natDigits (n : Nat) : List Nat :=
-  if h : n < 10 then [n] else natDigits (n / 10) ++ [n % 10]
+  if _h : n < 10 then [n] else natDigits (n / 10) ++ [n % 10]
 decreasing_by omega
 
 /-- Value of a digit list (most significant first). -/
@@ -89,16 +89,18 @@ def parseBigInt (cs : List Char) : Option Int :=
   | '+' :: rest => (parseNat rest).map fun n => (n : Int)
   | _ => (parseNat cs).map fun n => (n : Int)
 
+/-- `0 | [1-9][0-9]*` -/
+def jsonNatBody (ds : List Char) : Option Nat :=
+  match ds with
+  | ['0'] => some 0
+  | '0' :: _ => none
+  | _ => parseNat ds
+
 /-- JSON integer literal grammar: `-? (0 | [1-9][0-9]*)`. -/
 def parseJsonInt (cs : List Char) : Option Int :=
-  let body (ds : List Char) : Option Nat :=
-    match ds with
-    | ['0'] => some 0
-    | '0' :: _ => none
-    | _ => parseNat ds
   match cs with
-  | '-' :: rest => (body rest).map fun n => -(n : Int)
-  | _ => (body cs).map fun n => (n : Int)
+  | '-' :: rest => (jsonNatBody rest).map fun n => -(n : Int)
+  | _ => (jsonNatBody cs).map fun n => (n : Int)
 
 /-! ## Number literals -/
 
